@@ -55,7 +55,7 @@ theorem once_of_new (s s' : LS) (h : Once s) (x : Nat) (hi : s'.insts = s.insts 
   exact ⟨this.1, fun h1 => hr r (this.2 h1)⟩
 
 theorem linkPrev_same (f : Nat → Req) (hd : Option Nat) (r x : Nat) :
-    (linkPrev f hd r x).flushq = (f x).flushq ∧ (linkPrev f hd r x).wpc = (f x).wpc ∧
+    (linkPrev f hd r x).flushreq = (f x).flushreq ∧ (linkPrev f hd r x).wpc = (f x).wpc ∧
     (linkPrev f hd r x).rs = (f x).rs ∧ (linkPrev f hd r x).fl = (f x).fl ∧
     (linkPrev f hd r x).noRun = (f x).noRun ∧ (linkPrev f hd r x).oldtag = (f x).oldtag ∧
     (linkPrev f hd r x).tag = (f x).tag := by
